@@ -5,7 +5,7 @@
    l1of o / l2of o = sparsity / ridge coefficient (0 when None), qp_f / qp_grad (Base/RSum.v) the
    penalised objective  v'Gv/2 - b'v + l1 sum v + l2 sum v^2  and its gradient. *)
 From Coq Require Import List Arith Reals Lra QArith Qabs.
-From TLV Require Import Base.Ops Base.Tensor Base.RSum Model.Nnls Proofs.NnlsProofs Proofs.NnlsProofsDescent Proofs.NnlsProofsFista Proofs.NnlsProofsAset Proofs.NnlsProofsAsetCert Proofs.NnlsProofsAsetFull Proofs.NnlsProofsExamples.
+From TLV Require Import Base.Ops Base.Tensor Base.RSum Model.Nnls Proofs.NnlsProofs Proofs.NnlsProofsDescent Proofs.NnlsProofsNz Proofs.NnlsProofsAdmm Proofs.NnlsProofsFista Proofs.NnlsProofsFista2 Proofs.NnlsProofsAset Proofs.NnlsProofsAsetCert Proofs.NnlsProofsAsetFull Proofs.NnlsProofsExamples.
 Import ListNotations.
 Open Scope R_scope.
 
@@ -48,6 +48,47 @@ Theorem C13_hals_trace_is_loop : forall (F : Type) (Op : fops F) UtM UtU n V0 so
   else Ok (snd (hals_trace Op UtM UtU n o tol iters true (f0 Op) (match V0 with Some V => V | None => hals_init Op UtM UtU n sol end))).
 Proof. exact @hals_nnls_trace. Qed.
 Print Assumptions C13_hals_trace_is_loop.
+
+(* (i) for ANY setting of nonzero_rows (the theorems above and ALL descent / fixed-point theorems below assume
+   nonzero_rows = False): with machine epsilon >= 0 the safety procedure `V[k,:] = eps(dtype) * max(V)` keeps every
+   iterate >= epsilon; the function rejects (ValueError: zero column with nonzero_rows) or returns such a matrix *)
+Theorem C13_hals_iterates_ge_eps_any_nonzero_rows : forall (UtM UtU : list (list R)) (r n : nat) (o : @hopts R),
+  wfm r r UtU -> wfm r n UtM -> 0 <= h_meps o ->
+  forall (m : nat) (V : list (list R)), wfm r n V ->
+  (forall i j, (i < r)%nat -> (j < n)%nat -> h_eps o <= mget Rops V i j) ->
+  forall i j, (i < r)%nat -> (j < n)%nat -> h_eps o <= mget Rops (iterl m (hals_pass Rops UtM UtU n o) V) i j.
+Proof. exact giterates_ge_eps. Qed.
+Print Assumptions C13_hals_iterates_ge_eps_any_nonzero_rows.
+
+Theorem C13_hals_nnls_ge_eps_any_nonzero_rows : forall (UtM UtU : list (list R)) (r n : nat) (o : @hopts R),
+  wfm r r UtU -> wfm r n UtM -> 0 <= h_meps o ->
+  forall (V : list (list R)) (tol : R) (iters : nat), wfm r n V ->
+  (forall i j, (i < r)%nat -> (j < n)%nat -> h_eps o <= mget Rops V i j) ->
+  hals_nnls Rops UtM UtU n (Some V) [] iters tol o = Err /\ hals_rejects Rops UtM UtU iters o = true \/
+  exists W, hals_nnls Rops UtM UtU n (Some V) [] iters tol o = Ok W /\
+            forall i j, (i < r)%nat -> (j < n)%nat -> h_eps o <= mget Rops W i j.
+Proof. exact ghals_nnls_ge_eps. Qed.
+Print Assumptions C13_hals_nnls_ge_eps_any_nonzero_rows.
+
+(* why descent and fixed point <=> KKT are restricted to nonzero_rows = False: with nonzero_rows = True the optimum (1, 0)
+   of UtU = I, UtM = (1, -1) (gradient (0, 1)) is moved by one pass to (1, meps) (meps = 1/8 here), which raises the
+   objective; with nonzero_rows = False it is a fixed point.  By design of the safety procedure, not a defect. *)
+Example C13_hals_nonzero_rows_not_monotone :
+  hals_pass Qops nzw_UtM nzw_UtU 1 (mkH None None false 0 (1 # 8))%Q nzw_V = nzw_V /\
+  hals_pass Qops nzw_UtM nzw_UtU 1 (mkH None None true 0 (1 # 8))%Q nzw_V = [[1]; [1 # 8]]%Q /\
+  kkt_grad Qops nzw_UtM nzw_UtU 1 0%Q 0%Q nzw_V = [[0]; [1]]%Q.
+Proof. exact hals_nonzero_rows_witness. Qed.
+
+(* the optional callback (`if callback(V, rec_error) is True: break`) can only make the loop return an earlier iterate
+   of the pass, so every statement about iterates applies; without callback the loop is hals_loop *)
+Theorem C13_hals_callback_is_iterate : forall (F : Type) (Op : fops F) UtM UtU n o cb tol fuel first err0 V,
+  exists m, (m <= fuel)%nat /\ hals_loop_cb Op UtM UtU n o cb tol fuel first err0 V = iterl m (hals_pass Op UtM UtU n o) V.
+Proof. exact @hals_loop_cb_iter. Qed.
+Print Assumptions C13_hals_callback_is_iterate.
+Theorem C13_hals_no_callback : forall (F : Type) (Op : fops F) UtM UtU n o tol fuel first err0 V,
+  hals_loop_cb Op UtM UtU n o (fun _ _ => false) tol fuel first err0 V = hals_loop Op UtM UtU n o tol fuel first err0 V.
+Proof. exact @hals_loop_cb_none. Qed.
+Print Assumptions C13_hals_no_callback.
 
 (* (ii) one HALS pass (hence any number, hence the loop) never increases the penalised objective of any column *)
 Theorem C13_hals_pass_monotone : forall (UtM UtU : list (list R)) (r n : nat) (o : @hopts R),
@@ -147,7 +188,9 @@ Theorem C13_hals_fixed_point_optimal : forall (UtM UtU : list (list R)) (r n : n
 Proof. exact fixed_point_optimal. Qed.
 Print Assumptions C13_hals_fixed_point_optimal.
 
-(* (v) ADMM with n_const=None returns x with UtU^T x^T = UtM^T, given the contract of tl.solve *)
+(* (v) ADMM with n_const=None.  WIRING CHECK ONLY: the hypothesis (tl.solve solves the transposed system) is the
+   conclusion up to two transpositions; it says that the branch passes the right matrices to tl.solve and transposes
+   the answer back.  The statement of the property is C13_admm_none_least_squares below. *)
 Theorem C13_admm_none_normal_equations :
   forall (solve : list (list R) -> list (list R) -> list (list R)) UtM UtU x dual (m r it : nat),
   it <> 0%nat -> wfm r r UtU -> wfm m r UtM ->
@@ -156,6 +199,22 @@ Theorem C13_admm_none_normal_equations :
   wfm m r x' /\ forall c i, (c < m)%nat -> (i < r)%nat -> rsum r (fun k => mget Rops UtU k i * mget Rops x' c k) = mget Rops UtM c i.
 Proof. exact admm_none_normal_equations. Qed.
 Print Assumptions C13_admm_none_normal_equations.
+
+(* the clause of the property: when UtU and UtM ARE normal-equation data (UtU = U^T U, UtM = M^T U for a design U with q
+   rows and data rows M_c) and tl.solve meets its contract, every row of the returned x minimises ||M_c - U z||^2 over
+   ALL vectors z: the unconstrained least-squares solution *)
+Theorem C13_admm_none_least_squares :
+  forall (solve : list (list R) -> list (list R) -> list (list R)) UtM UtU x dual (m r it q : nat)
+         (A : nat -> nat -> R) (Y : nat -> nat -> R),
+  it <> 0%nat -> wfm r r UtU -> wfm m r UtM ->
+  solves r m (mtranspose Rops r UtU) (mtranspose Rops r UtM) (solve (mtranspose Rops r UtU) (mtranspose Rops r UtM)) ->
+  (forall k i, (k < r)%nat -> (i < r)%nat -> mget Rops UtU k i = rsum q (fun t => A t k * A t i)) ->
+  (forall c i, (c < m)%nat -> (i < r)%nat -> mget Rops UtM c i = rsum q (fun t => Y c t * A t i)) ->
+  let x' := fst (fst (admm_none Rops solve UtM UtU x dual m r it)) in
+  forall c z, (c < m)%nat ->
+    ls_obj q r A (Y c) 0 (fun k => mget Rops x' c k) <= ls_obj q r A (Y c) 0 z.
+Proof. exact admm_none_least_squares. Qed.
+Print Assumptions C13_admm_none_least_squares.
 
 (* non-vacuity of the HALS fixed-point / optimality theorems: a 2 x 1 problem with one inactive and one active
    constraint; its optimum (3/2, 0) satisfies every hypothesis above at once (plain and l1/ridge-penalised) *)
@@ -275,6 +334,29 @@ Theorem C13_fista_trace_is_loop : forall (F : Type) (Op : fops F) UtM UtU n nonn
   fista_loop Op UtM UtU n nonneg sp rd lr tol eps betas first norm0 x xu.
 Proof. exact @fista_trace_snd. Qed.
 Print Assumptions C13_fista_trace_is_loop.
+
+(* fista with a LIST [A, B] as UtU and a matrix unknown (the `isinstance(UtU, list)` branch; core update of
+   non_negative_tucker_hals for an order-2 core): multi_mode_dot(x, [A, B]) = A x B^T, so the gradient entry is that of
+   the Kronecker-structured problem, and the fixed points of the projected step are exactly its KKT points at epsilon *)
+Theorem C13_fista_list_fixed_point_kkt : forall (UtM A B : list (list R)) (r1 r2 : nat) (sp rd lr eps : R),
+  wfm r1 r1 A -> wfm r2 r2 B -> wfm r1 r2 UtM ->
+  forall V : list (list R), 0 < lr -> wfm r1 r2 V -> fista2_new Rops UtM A B r2 true sp rd lr eps V = V ->
+  forall i j, (i < r1)%nat -> (j < r2)%nat ->
+    let g := rsum r1 (fun k => mget Rops A i k * rsum r2 (fun l => mget Rops V k l * mget Rops B j l))
+             - mget Rops UtM i j + sp + 2 * rd * mget Rops V i j in
+    eps <= mget Rops V i j /\ 0 <= g /\ (mget Rops V i j - eps) * g = 0.
+Proof. exact fista2_fixed_point_kkt. Qed.
+Print Assumptions C13_fista_list_fixed_point_kkt.
+Theorem C13_fista_list_kkt_is_fixed_point : forall (UtM A B : list (list R)) (r1 r2 : nat) (sp rd lr eps : R),
+  wfm r1 r1 A -> wfm r2 r2 B -> wfm r1 r2 UtM ->
+  forall V : list (list R), 0 < lr -> wfm r1 r2 V ->
+  (forall i j, (i < r1)%nat -> (j < r2)%nat ->
+    let g := rsum r1 (fun k => mget Rops A i k * rsum r2 (fun l => mget Rops V k l * mget Rops B j l))
+             - mget Rops UtM i j + sp + 2 * rd * mget Rops V i j in
+    eps <= mget Rops V i j /\ 0 <= g /\ (mget Rops V i j - eps) * g = 0) ->
+  fista2_new Rops UtM A B r2 true sp rd lr eps V = V.
+Proof. exact fista2_kkt_fixed_point. Qed.
+Print Assumptions C13_fista_list_kkt_is_fixed_point.
 
 (* regression of the former stopping-rule defect: UtU = [[2,1],[1,2]], UtM = (6,3), every parameter at its default
    (lr = 1/3, tol = 1e-8, x0 = 0; epsilon = 0).  After two iterations the point is (7/3, 2/3) and the step was
